@@ -7,6 +7,9 @@ import (
 	"strings"
 	"time"
 
+	"github.com/paulsonkoly/calc/parser"
+	"github.com/paulsonkoly/calc/types/node"
+
 	"verif/ast"
 	"verif/calcrun"
 	"verif/core"
@@ -330,14 +333,137 @@ func c16Eval(ctx *core.Ctx, idx int) core.Result {
 	return res
 }
 
+// c16EvalMulti: several statements side by side in one input line (the only way -eval takes more than one
+// statement), optionally with a statement the compiler refuses in the middle; -eval, the REPL and a one-line
+// script file must each print what that mode prints for the statements one by one.
+func c16EvalMulti(ctx *core.Ctx, idx int) core.Result {
+	r := core.CaseRng(ctx.Seed, "C16/evalmulti", idx)
+	var res core.Result
+	bin := calcrun.CalcBinary()
+	if bin == "" {
+		return core.Result{Verdict: core.Inconclusive, Reason: "no calc binary (VERIF_CALC_BIN)"}
+	}
+	o := gen.DefaultOpts()
+	o.MaxDepth = r.Range(1, 3)
+	o.NoErrors = true
+	g := gen.New(r, o)
+	var stmts []ast.Node
+	for k := r.Range(2, 5); k > 0; k-- {
+		if r.Chance(1, 3) {
+			stmts = append(stmts, icall("write", ast.StrLit{V: fmt.Sprintf("<w%d>", k)}))
+		} else {
+			stmts = append(stmts, g.TopStmt())
+		}
+	}
+	ref := rs.New()
+	var texts []string
+	var want []rs.Result
+	for _, st := range stmts {
+		if d := ast.Denotable(st); d != "" {
+			return core.Result{Verdict: core.Inconclusive, Reason: "undenotable: " + d}
+		}
+		w := ref.Exec(st)
+		if w.Ambiguous != "" || w.Budget || w.TooBig || w.Err != "" {
+			return core.Result{Verdict: core.Dropped, Reason: "statement fails or is outside the agreed region"}
+		}
+		want = append(want, w)
+		texts = append(texts, ast.Print(st, nil))
+	}
+	// a statement the compiler refuses (more constants than an operand can address), one case in six
+	refusedAt, refusedMsg := -1, ""
+	if idx%6 == 5 {
+		big := "zbig=[" + strings.Repeat("z,", 32999) + "z]" // 66 KB: one command line argument holds at most 128 KB
+		calcrun.SetStdin("")
+		s2 := calcrun.NewSession()
+		refusedMsg = calcrun.Capture(func() { node.VerifProcessInput(big, parser.Type{}, s2.VM, true) })
+		if !strings.HasPrefix(refusedMsg, "Compiler: ") {
+			return core.Result{Verdict: core.Inconclusive, Reason: "the oversized statement was not refused in-process: " + trunc(refusedMsg, 100)}
+		}
+		refusedAt = r.Intn(len(texts))
+		texts = append(texts[:refusedAt], append([]string{big}, texts[refusedAt:]...)...)
+		res.Tag("evalmulti:refused-statement")
+	}
+	line := strings.Join(texts, " ")
+	// the juxtaposition must parse into the very same statements
+	nodes, perr, pan, hang, _, _ := calcrun.Parse(line)
+	if perr != nil || pan != nil || hang != "" || len(nodes) != len(texts) {
+		return core.Result{Verdict: core.Dropped, Reason: "juxtaposition does not parse into the same statements"}
+	}
+	for i := range nodes {
+		one, perr1, _, _, _, _ := calcrun.Parse(texts[i])
+		if perr1 != nil || len(one) != 1 || ast.Sexp(calcrun.FromNode(nodes[i])) != ast.Sexp(calcrun.FromNode(one[0])) {
+			return core.Result{Verdict: core.Dropped, Reason: "juxtaposition does not parse into the same statements"}
+		}
+	}
+	wantEval, wantRepl, wantFile := "", replBanner, ""
+	k := 0
+	for i := range texts {
+		if i == refusedAt {
+			wantEval += strings.TrimPrefix(refusedMsg, "Compiler: ") // -eval prints the bare error
+			wantRepl += refusedMsg
+			wantFile += refusedMsg
+			continue
+		}
+		w := want[k]
+		k++
+		wantEval += w.Out + val.Render(w.Value) + "\n"
+		wantRepl += w.Out + "> " + val.Display(w.Value) + "\n"
+		wantFile += w.Out
+	}
+	res.Hash = core.HashString(line)
+	shown := line
+	if refusedAt >= 0 {
+		shown = strings.Replace(line, strings.Repeat("z,", 32999), "z,...x32999...", 1)
+	}
+	in := map[string]any{"line": trunc(shown, 3000)}
+	fail := func(mon, d string) core.Result {
+		res.Verdict = core.Violated
+		res.Viol = &core.Violation{Monitor: mon, Detail: d, Input: in}
+		return res
+	}
+	pe := calcrun.RunCalc(bin, []string{"-eval", line}, nil, "", 30*time.Second)
+	path, rm := scratchFile("c16-*.calc", line+"\n")
+	defer rm()
+	pf := calcrun.RunCalc(bin, []string{path}, nil, "", 30*time.Second)
+	// (the REPL's line editor needs ~10 s for a 66 KB line: the refused-statement cases run -eval and file mode only)
+	pr := calcrun.ProcResult{Stdout: wantRepl}
+	if refusedAt < 0 {
+		pr = calcrun.RunCalc(bin, nil, []byte(line+"\n"), "", 30*time.Second)
+	}
+	for _, m := range []struct {
+		name string
+		p    calcrun.ProcResult
+		want string
+	}{{"-eval", pe, wantEval}, {"file", pf, wantFile}, {"repl", pr, wantRepl}} {
+		if m.p.TimedOut {
+			return core.Result{Verdict: core.Inconclusive, Reason: "watchdog"}
+		}
+		if m.p.Exit != 0 {
+			return fail("exit-status", fmt.Sprintf("%s mode exited %d, stderr %q", m.name, m.p.Exit, trunc(m.p.Stderr, 300)))
+		}
+		if m.p.Stdout != m.want {
+			return fail("mode-equivalence", fmt.Sprintf("%s mode printed %q for the %d statements of the line; one by one they print %q", m.name, trunc(m.p.Stdout, 400), len(texts), trunc(m.want, 400)))
+		}
+	}
+	res.Add("eval_runs", 1)
+	res.Add("file_runs", 1)
+	res.Add("repl_runs", 1)
+	res.Add("multi_statement_lines", 1)
+	res.Verdict = core.Held
+	res.Nontrivial = true
+	res.Sample = in
+	return res
+}
+
 func init() {
 	register(&core.Property{
 		ID:          "C16",
-		Rule:        "(1) script: scripts of 2..14 top-level statements mixing one-line statements, multi-line blocks, multi-line array literals and strings, strings and comments containing { } [ ] \" \\\" ; and line breaks, comment-only and blank lines, random layout (comments before line breaks, blank lines in blocks, newlines in arrays, random blanks), with and without a final newline; the real binary is run in file mode (stdout compared with the reference's statement-by-statement output and with the in-process statement-by-statement script-mode execution), in REPL mode with the text piped in (stdout compared byte for byte with banner + output + '> value' lines from the reference), and -eval on the first statement; exit status must be 0. (2) eval: one self-contained block (function/closure/generator definitions and uses, ending in a write) in all three modes. non-trivial = >= 2 statements / every eval case; distinct by script text.",
+		Rule:        "(1) script: scripts of 2..14 top-level statements mixing one-line statements, multi-line blocks, multi-line array literals and strings, strings and comments containing { } [ ] \" \\\" ; and line breaks, comment-only and blank lines, random layout (comments before line breaks, blank lines in blocks, newlines in arrays, random blanks), with and without a final newline; the real binary is run in file mode (stdout compared with the reference's statement-by-statement output and with the in-process statement-by-statement script-mode execution), in REPL mode with the text piped in (stdout compared byte for byte with banner + output + '> value' lines from the reference), and -eval on the first statement; exit status must be 0. (2) eval: one self-contained block (function/closure/generator definitions and uses, ending in a write) in all three modes. (3) evalmulti: 2..5 statements side by side on one line (the only way -eval takes several), one case in six with a statement the compiler refuses (33000 constants) among them, in all three modes against the per-statement expectations (every statement echoed in -eval and the REPL, the refusal reported and the rest carried on with). non-trivial = >= 2 statements / every eval case; distinct by script text.",
 		Assumptions: []string{"scripts contain no runtime errors (reports embed pointer values), no carriage returns and end every statement at a line break", "REPL result quoting of strings (Display) is the documented difference between the modes"},
 		Families: []core.Family{
 			{Name: "script", Count: countFn(1200, 20000), Run: c16Script},
 			{Name: "eval", Count: countFn(800, 15000), Run: c16Eval},
+			{Name: "evalmulti", Count: countFn(360, 12000), Run: c16EvalMulti},
 		},
 		Sanitize: []string{"script"},
 		Floors:   []core.Floor{{Key: "file_runs", Quick: 400, Thor: 20000}, {Key: "repl_runs", Quick: 400, Thor: 20000}, {Key: "eval_runs", Quick: 400, Thor: 20000}, {Key: "tag:script:", Quick: 5, Thor: 5}},
